@@ -22,6 +22,7 @@ import (
 	"time"
 
 	wrapping "github.com/hashicorp/go-kms-wrapping/v2"
+	"github.com/hashicorp/go-kms-wrapping/v2/extras/multi"
 	"github.com/hashicorp/nodeenrollment"
 	"github.com/hashicorp/nodeenrollment/registration"
 	"github.com/hashicorp/nodeenrollment/rotation"
@@ -1289,7 +1290,25 @@ func (x *sealedScn) runFaultFlow() {
 func (x *sealedScn) runFlow() {
 	sc := x.sc
 	r := x.r
-	srv := &sealedServer{side: x.newSide("server", world.NewAead("srv-sw-"+hex.EncodeToString(world.RandBytes(4))))}
+	var srvWrap wrapping.Wrapper = world.NewAead("srv-sw-" + hex.EncodeToString(world.RandBytes(4)))
+	rollover := func() {}
+	if sc.Variant%3 == 1 {
+		// the server's storage wrapper is a pool of aead keys whose encrypting key is rolled over
+		// between the steps: what was sealed earlier must still open (and only with this pool)
+		pool, err := multi.NewPooledWrapper(x.ctx, srvWrap)
+		if err != nil {
+			x.failed = "pooled wrapper: " + err.Error()
+			return
+		}
+		srvWrap = pool
+		rollover = func() {
+			if _, err := pool.SetEncryptingWrapper(x.ctx, world.NewAead("srv-sw-"+hex.EncodeToString(world.RandBytes(4)))); err != nil {
+				panic(err)
+			}
+			r.Count("server_wrapper_key_rollovers", 1)
+		}
+	}
+	srv := &sealedServer{side: x.newSide("server", srvWrap)}
 	if sc.Flow == world.FlowWrapper {
 		srv.rw = world.NewAead("rw-" + hex.EncodeToString(world.RandBytes(4)))
 	}
@@ -1317,6 +1336,7 @@ func (x *sealedScn) runFlow() {
 		return
 	}
 	r.Count("flow_step:rotate-roots-"+sc.Roots, 1)
+	rollover()
 	x.secretsOfRoots(roots)
 	x.roundTrip(srv.side, roots)
 	if raw, err := sealedRawLoad(x.ctx, srv.side.inner, sealedRoots, roots.Id); err == nil {
@@ -1392,6 +1412,7 @@ func (x *sealedScn) runFlow() {
 	if !sc.Rotate {
 		return
 	}
+	rollover()
 	if sc.Variant%2 == 0 {
 		// the application has tagged the node's record with a node ID of its own (the library never sets one)
 		cur, err := sealedLibLoad(x.ctx, srv.side.inner, sealedNI, A.keyID, srv.side.opts()...)
@@ -1640,6 +1661,7 @@ func runSealed(c *engine.Ctx) engine.Result {
 	r.Require("substring_searches", 5000)
 	r.Require("transplant_controls_ok", 100)
 	r.Require("flow_step:rotate-node-credentials", 10)
+	r.Require("server_wrapper_key_rollovers", 10)
 	r.Require("flow_step:rotation-of-a-record-with-node-id", 4)
 	r.Require("flow_step:retain-previous-key", 5)
 	r.Require("flow_step:create-token", 30)
